@@ -168,18 +168,18 @@ static void fragment(Rng& r, Dgram& d, int style, u32 maxfr) {
 struct MKey { u16 id; u32 src, dst; bool operator<(const MKey& o) const { return id != o.id ? id < o.id : src != o.src ? src < o.src : dst < o.dst; }
               bool operator==(const MKey& o) const { return id == o.id && src == o.src && dst == o.dst; } MKey mirror() const { return MKey{id, dst, src}; } };
 enum { F_RESTART_REMOVE = 1, F_RESTART_CLEAR = 2, F_SURV_MIRROR = 4, F_SURV_OTHER = 8, F_SURV_ANY = 12 };
-struct MState { std::vector<u8> cov; u32 prefix = 0; long total_units = -1; u32 nseen = 0; u8 flags = 0; };
+struct MState { std::vector<u8> cov; u32 prefix = 0; long total_units = -1; u32 nseen = 0; u8 flags = 0, latest = 0; };   // latest: the most recent operation that concerned this datagram (one F_* bit)
 struct Model {
     std::map<MKey, MState> st; std::set<MKey> done; std::map<MKey, u8> killed;   // killed: keys whose pending fragments an operation discarded
-    bool was_dup = false, after_completion = false, last_first = false, restarted = false; u8 last_flags = 0;
+    bool was_dup = false, after_completion = false, last_first = false, restarted = false; u8 last_flags = 0, last_latest = 0;
     int feed(const MKey& k, u32 off, u32 len, bool mf) {
         after_completion = done.count(k) != 0;
         bool fresh = st.find(k) == st.end();
         MState& s = st[k]; u32 u0 = off / 8, n = (len + 7) / 8;
         restarted = false;
-        if (fresh && !killed.empty()) { auto it = killed.find(k); if (it != killed.end()) { s.flags |= it->second; killed.erase(it); restarted = true; } }
+        if (fresh && !killed.empty()) { auto it = killed.find(k); if (it != killed.end()) { s.flags |= it->second; s.latest = it->second; killed.erase(it); restarted = true; } }
         if (s.cov.size() < u0 + n) s.cov.resize(u0 + n, 0);
-        was_dup = s.cov[u0] != 0; last_first = fresh && !mf; last_flags = s.flags;
+        was_dup = s.cov[u0] != 0; last_first = fresh && !mf; last_flags = s.flags; last_latest = s.latest;
         for (u32 i = 0; i < n; ++i) s.cov[u0 + i] = 1;
         if (!mf) s.total_units = (long)(u0 + n);
         while (s.prefix < s.cov.size() && s.cov[s.prefix]) ++s.prefix;
@@ -190,7 +190,7 @@ struct Model {
     // returns bit 0: k was pending (now forgotten), bit 1: the mirrored triple is pending, bit 2: other datagrams are pending
     int remove(const MKey& k) {
         int cls = 0; MKey m = k.mirror();
-        for (auto& e : st) { if (e.first == k) continue; if (e.first == m) { e.second.flags |= F_SURV_MIRROR; cls |= 2; } else { e.second.flags |= F_SURV_OTHER; cls |= 4; } }
+        for (auto& e : st) { if (e.first == k) continue; if (e.first == m) { e.second.flags |= F_SURV_MIRROR; e.second.latest = F_SURV_MIRROR; cls |= 2; } else { e.second.flags |= F_SURV_OTHER; e.second.latest = F_SURV_OTHER; cls |= 4; } }
         auto it = st.find(k); if (it != st.end()) { st.erase(it); killed[k] = F_RESTART_REMOVE; cls |= 1; }
         return cls;
     }
@@ -346,7 +346,7 @@ static bool step(World& w, const Ev& e) {
             if (exp == S_REASM) { ++ctr[f.off == 0 ? C_BYFIRST : !f.mf ? C_BYLAST : C_BYMID]; if (!w.model.st.empty()) ++ctr[C_COMPL_PENDING]; }
             else if (w.model.st.size() >= 2) ++ctr[C_FRAG_PENDING];
             if (w.has_ops) {
-                u8 fl = w.model.last_flags; opctx = opctx_of(fl);
+                u8 fl = w.model.last_flags; opctx = opctx_of(w.model.last_latest);
                 if (w.model.restarted) ++ctr[fl & F_RESTART_REMOVE ? C_RESTART_RM : C_RESTART_CLR];
                 if (exp == S_REASM) { if (fl & F_RESTART_REMOVE) ++ctr[C_COMPL_AFTER_SELF]; if (fl & F_RESTART_CLEAR) ++ctr[C_COMPL_AFTER_CLEAR]; if (fl & F_SURV_MIRROR) ++ctr[C_COMPL_AFTER_MIRROR]; if (fl & F_SURV_OTHER) ++ctr[C_COMPL_AFTER_UNREL]; }
                 else if (fl & F_SURV_ANY) ++ctr[C_FRAG_SURVIVOR];
